@@ -162,16 +162,26 @@ func c03Doc() xgen.DocOpts {
 func TestC03Rapid(t *testing.T) {
 	runRapid(t, uC03, func(rt *rapid.T) {
 		o := c03Doc()
+		// one document in four has prefixed elements: siblings that share a local name under
+		// different prefixes are different candidates of a name test (no namespace map: a test
+		// prefix:local matches exactly that prefix and local name)
+		prefixed := rapid.IntRange(0, 3).Draw(rt, "prefixed") == 3
+		if prefixed {
+			o.NS = &xgen.NSOpts{Prefixes: []string{"", "p", "p", "q"}, URIs: []string{"", "u"}}
+		}
 		shape := xgen.Shape(rt, &o)
 		doc := xgen.Doc(rt, o)
 		ctx := xgen.Context(rt, doc, 5)
 		g := xgen.NewG(rt, doc)
 		g.ElNames = xgen.ElNames2
+		if prefixed {
+			g.Prefixes = []string{"", "p", "q"}
+		}
 		if shape == "doc:wide" {
 			g.PosLits = []string{"1", "2", "9", "10", "11", "12", "13", "3"} // two-digit positions
 		}
 		e := g.PosExpr(ctx)
-		l := &harness.Live{Property: "C03", Check: "C03/positional", Doc: doc, Ctx: ctx, AST: e, Expr: xast.Render(e), Flavour: flavourOf(rt)}
+		l := &harness.Live{Property: "C03", Check: "C03/positional", Doc: doc, Ctx: ctx, AST: e, Expr: renderDrawn(rt, e), Flavour: flavourOf(rt)}
 		info, f := oracleC03(l)
 		if f != nil {
 			if inconclusive(uC03, f) {
